@@ -72,6 +72,29 @@ class BModel(KModel):
             return None
         raise Unsupported("slice pattern on data.shape() needs the exact rank, which the builder may not depend on")
 
+    def for_loop(self, iterable, pat, body, frame, e):
+        it = deref_all(iterable)
+        if isinstance(it, Enum) and it.adt == 'std::ops::Range':
+            s_, e_ = deref_all(it.fields['start']), deref_all(it.fields['end'])
+            if isinstance(s_, Num) and isinstance(e_, Num):
+                # one inductive step with a symbolic position; a buffer pushed to once per iteration grows by the trip count
+                bufs = []
+                f = frame
+                while f is not None:
+                    bufs += [v for v in f.vars.values() if isinstance(v, Obj) and v.kind == 'vecbuf']
+                    f = f.parent
+                before = {id(b): b.d['pushes'] for b in bufs}
+                lf = Frame(frame)
+                if not self.interp.match_pat(pat, ValPlace(Num(Rat.atom('loopvar'))), lf):
+                    raise Unsupported("loop pattern over a range", e)
+                self.interp.eval(body, lf)
+                for b in bufs:
+                    per = b.d['pushes'] - before[id(b)]
+                    b.d['pushes'] = before[id(b)]
+                    b.d['length'] = b.d['length'] + (e_.r - s_.r) * per
+                return Unit()
+        return super().for_loop(iterable, pat, body, frame, e)
+
     def _undecided(self, op, a, b, e):
         raise Unsupported("comparison %s between %r and %r is outside the builder's decision table" % (op, a, b), e)
 
@@ -107,22 +130,47 @@ class BModel(KModel):
             raise Unsupported("shape().get(%d) with unknown rank" % k, e)
         if name in ('builtin::index', 'std::ops::Index::index', 'core::slice::index::<impl std::ops::Index for [T]>::index') and isinstance(a0, Obj) and a0.kind == 'shape':
             idx = deref_all(args[1])
+            off = a0.d.get('off', 0)
+            n = self.scn['ndim']
+            lo = n if isinstance(n, int) else self.scn['ndim_min']
             if isinstance(idx, Num) and idx.const() is not None:
-                k = int(idx.const())
-                n = self.scn['ndim']
-                lo = n if isinstance(n, int) else self.scn['ndim_min']
-                if k < lo:
+                k = int(idx.const()) + off
+                if k < min(lo, a0.d.get('end', lo)):
                     return Ref(ValPlace(Num(Rat.atom('d%d' % k))))
                 raise Diverge("index %d out of bounds of data.shape() (rank %s)" % (k, n), e)
+            if isinstance(idx, Enum) and idx.adt in ('std::ops::RangeTo', 'std::ops::Range', 'std::ops::RangeFrom', 'std::ops::RangeFull'):
+                # a sub-slice of the shape: needs the rank to cover it
+                s_ = deref_all(idx.fields['start']) if 'start' in idx.fields else Num(0)
+                e_ = deref_all(idx.fields['end']) if 'end' in idx.fields else None
+                if isinstance(s_, Num) and s_.const() is not None and (e_ is None or (isinstance(e_, Num) and e_.const() is not None)):
+                    s0 = int(s_.const())
+                    if e_ is not None:
+                        if int(e_.const()) + off > lo:
+                            raise Diverge("slice ..%d out of bounds of data.shape() (rank %s)" % (int(e_.const()), n), e)
+                        return Ref(ValPlace(Obj('shape', of=a0.d.get('of'), off=off + s0, end=off + int(e_.const()))))
+                    if s0 + off > lo:
+                        raise Diverge("slice %d.. out of bounds of data.shape() (rank %s)" % (s0, n), e)
+                    return Ref(ValPlace(Obj('shape', of=a0.d.get('of'), off=off + s0)))
             return NotImplemented
         if name == 'std::iter::Iterator::map' and isinstance(a0, Enum) and a0.adt == 'std::ops::Range':
             return Obj('range_map', range=a0)
+        # a default axis filled element by element: Vec::with_capacity / new, one push per loop iteration, Array::from_vec
+        if name in ('std::vec::Vec::with_capacity', 'std::vec::Vec::new', 'alloc::vec::Vec::with_capacity', 'alloc::vec::Vec::new'):
+            return Obj('vecbuf', pushes=0, length=Rat.const(0))
+        if name in ('std::vec::Vec::push', 'alloc::vec::Vec::push') and isinstance(a0, Obj) and a0.kind == 'vecbuf':
+            a0.d['pushes'] += 1
+            return Unit()
+        if last in ('from_vec', 'from') and isinstance(a0, Obj) and a0.kind == 'vecbuf':
+            self.default_axes = getattr(self, 'default_axes', 0) + 1
+            return Obj('ndarr', name='default%d' % self.default_axes, role='axis', length=Num(a0.d['length']))
         nd = (cal.get('crate') == 'ndarray') or ('ndarray::' in (cal.get('resolved') or ''))
         if nd and last == 'from_iter' and isinstance(a0, Obj) and a0.kind == 'range_map':
             r = a0.d['range']
             self.default_axes = getattr(self, 'default_axes', 0) + 1
             return Obj('ndarr', name='default%d' % self.default_axes, role='axis', length=deref_all(r.fields['end']))
         if nd and isinstance(a0, Obj) and a0.kind == 'ndarr':
+            if last in ('view', 'reborrow'):
+                return a0          # a read-only view of an axis / the data is that array as far as the requirement table is concerned
             if last == 'ndim' and a0.d['role'] == 'data':
                 return self.ndim_value()
             if last == 'shape' and a0.d['role'] == 'data':
